@@ -18,15 +18,15 @@ Proof.
     rewrite app_assoc. reflexivity.
 Qed.
 
-Lemma rt_repeat_split : forall (x : rt_tag) a b y y' r r',
-  y <> x -> y' <> x ->
-  repeat x a ++ y :: r = repeat x b ++ y' :: r' -> a = b /\ y = y' /\ r = r'.
+Lemma rt_repeat_split : forall b b' a a' y y' r r',
+  (forall x, y <> PTx x) -> (forall x, y' <> PTx x) ->
+  repeat (PTx b) a ++ y :: r = repeat (PTx b') a' ++ y' :: r' -> a = a' /\ y = y' /\ r = r'.
 Proof.
-  induction a as [|a IH]; intros [|b] y y' r r' Hy Hy' E; cbn in E.
+  intros b b'. induction a as [|a IH]; intros [|a'] y y' r r' Hy Hy' E; cbn in E.
   - inversion E; auto.
-  - inversion E; subst. congruence.
-  - inversion E; subst. congruence.
-  - inversion E. destruct (IH b y y' r r' Hy Hy' H0) as (A & B & C). auto.
+  - inversion E; subst. exfalso. eapply Hy; reflexivity.
+  - inversion E; subst. exfalso. eapply Hy'; reflexivity.
+  - injection E as Eb Et. subst b. destruct (IH a' y y' r r' Hy Hy' Et) as (A & B & C). auto.
 Qed.
 
 Lemma rt_outcome_not_tx : forall j o b, rt_outcome_ok j o -> o <> PTx b.
@@ -35,29 +35,26 @@ Proof. intros j [b'|r c mx|] b H; cbn in H; [contradiction|discriminate|discrimi
 Lemma rt_closed_final : forall l1 l2, rt_closed l1 -> rt_shape (l1 ++ l2) -> l2 = [].
 Proof.
   intros l1 l2 (b & j & o & E & _ & Ho) [Sh|[Sh|Sh]]; subst l1.
-  - cbn in Sh. discriminate.
+  - apply (f_equal (@length _)) in Sh. rewrite !app_length in Sh. cbn in Sh. lia.
   - destruct Sh as (b' & j' & E'). destruct E' as [E' _].
     assert (I : In o (repeat (PTx b') (S j'))).
     { rewrite <- E'. apply in_or_app. left. apply in_or_app. right. left. reflexivity. }
     apply repeat_spec in I. exfalso. eapply rt_outcome_not_tx; eauto.
   - destruct Sh as (b' & j' & o' & E' & _ & Ho').
     rewrite <- app_assoc in E'. cbn [app] in E'.
-    assert (Eb : b = b').
-    { cbn in E'. inversion E'. reflexivity. }
-    subst b'.
-    destruct (rt_repeat_split (PTx b) (S j) (S j') o o' l2 []
-                (rt_outcome_not_tx _ _ _ Ho) (rt_outcome_not_tx _ _ _ Ho') E') as (_ & _ & L).
+    destruct (rt_repeat_split b b' j j' o o' l2 []
+                (fun x => rt_outcome_not_tx _ _ x Ho) (fun x => rt_outcome_not_tx _ _ x Ho') E') as (_ & _ & L).
     exact L.
 Qed.
 
-Theorem rt_nothing_after_outcome : forall t0 e1 e2 u,
-  Forall rt_ev_ok (e1 ++ e2) ->
-  rt_closed (rt_proj u (snd (rt_run (rt_init t0) e1))) ->
-  rt_proj u (snd (rt_run (rt_init t0) (e1 ++ e2))) = rt_proj u (snd (rt_run (rt_init t0) e1)).
+Theorem rt_nothing_after_outcome : forall t0 nst e1 e2 u,
+  rt_nst_ok nst -> Forall rt_ev_ok (e1 ++ e2) ->
+  rt_closed (rt_proj u (snd (rt_run (rt_init t0 nst) e1))) ->
+  rt_proj u (snd (rt_run (rt_init t0 nst) (e1 ++ e2))) = rt_proj u (snd (rt_run (rt_init t0 nst) e1)).
 Proof.
-  intros t0 e1 e2 u F C.
-  pose proof (rt_one_outcome t0 (e1 ++ e2) u F) as H.
-  rewrite rt_run_app in *. destruct (rt_run (rt_init t0) e1) as [st1 o1].
+  intros t0 nst e1 e2 u Hn F C.
+  pose proof (rt_one_outcome t0 nst (e1 ++ e2) u Hn F) as H.
+  rewrite rt_run_app in *. destruct (rt_run (rt_init t0 nst) e1) as [st1 o1].
   destruct (rt_run st1 e2) as [st2 o2]. cbn [snd] in *. destruct H as [Sh _].
   rewrite rt_proj_app in *. rewrite (rt_closed_final _ _ C Sh). apply app_nil_r.
 Qed.
@@ -65,17 +62,29 @@ Qed.
 (* ------------------------------------------------------------------ time invariant *)
 Definition rt_nbound (n : sq_node) : Prop :=
   0 <= qn_cnt n <= qn_max n /\ qn_max n <= 255 /\ 0 <= qn_timeout n.
+(* a message that waits for a slot *)
+Definition rt_hbound (n : sq_node) : Prop :=
+  qn_cnt n = -1 /\ 0 <= qn_max n <= 255 /\ 0 <= qn_timeout n.
 
-Definition rt_tinv (st : rt_state) : Prop :=
+(* the queue's part ... *)
+Definition rt_qinv (st : rt_state) : Prop :=
   sq_wf (rs_q st) /\ (rs_q st <> [] -> rs_base st <= rs_now st) /\
   Forall rt_nbound (rt_nodes (rs_q st)).
+(* ... and the sessions' part *)
+Definition rt_tinv (st : rt_state) : Prop :=
+  rt_qinv st /\ Forall rt_hbound (rt_held (rs_sess st)) /\ rt_slots_ok (rs_sess st).
 
-Lemma rt_tinv_init : forall t0, rt_tinv (rt_init t0).
-Proof. intros. split; [exact I|]. split; [intros X; contradiction|constructor]. Qed.
-
-Lemma rt_enqueue_tinv : forall st n d, rt_tinv st -> rt_nbound n -> rt_tinv (rt_enqueue st n d).
+Lemma rt_tinv_init : forall t0 nst, rt_nst_ok nst -> rt_tinv (rt_init t0 nst).
 Proof.
-  intros st n d (W & B & F) Hn. unfold rt_tinv, rt_enqueue. destruct (rs_q st) as [|e q] eqn:E.
+  intros t0 nst H. unfold rt_tinv, rt_qinv, rt_init. cbn [rs_q rs_sess rs_base rs_now].
+  rewrite rt_held_init. split; [split; [exact I|split; [intros X; contradiction|constructor]]|].
+  split; [constructor|]. unfold rt_slots_ok. rewrite Forall_map. eapply Forall_impl; [|exact H].
+  intros p Hp. unfold rt_sinfo_ok. cbn in *. lia.
+Qed.
+
+Lemma rt_enqueue_qinv : forall st n d, rt_qinv st -> rt_nbound n -> rt_qinv (rt_enqueue st n d).
+Proof.
+  intros st n d (W & B & F) Hn. unfold rt_qinv, rt_enqueue. destruct (rs_q st) as [|e q] eqn:E.
   - cbn. split; [constructor|]. split; [intros _; lia|]. constructor; [exact Hn|constructor].
   - cbn [rs_q rt_set_q rs_base rs_now]. split; [apply sq_insert_wf; exact W|]. split.
     + intros _. apply B. discriminate.
@@ -83,28 +92,40 @@ Proof.
       constructor; assumption.
 Qed.
 
+Lemma rt_enqueue_tinv : forall st n d, rt_tinv st -> rt_nbound n -> rt_tinv (rt_enqueue st n d).
+Proof.
+  intros st n d (Q & H & SO) Hn. destruct (rt_enqueue_nodes st n d) as (_ & _ & _ & S).
+  split; [apply rt_enqueue_qinv; assumption|]. rewrite S. split; assumption.
+Qed.
+
 Lemma rt_set_q_tinv : forall st q', rt_tinv st -> sq_wf q' -> (q' <> [] -> rs_q st <> []) ->
   Forall rt_nbound (rt_nodes q') -> rt_tinv (rt_set_q st q').
 Proof.
-  intros st q' (W & B & F) W' Hne F'. split; [exact W'|]. split; [|exact F'].
-  cbn. intros X. apply B. apply Hne. exact X.
-Qed.
-
-Lemma rt_retransmit_tinv : forall st n, rt_tinv st -> rt_nbound n ->
-  rt_tinv (fst (rt_retransmit st n)) /\ rs_now (fst (rt_retransmit st n)) = rs_now st.
-Proof.
-  intros st n T (C & M & TO). unfold rt_retransmit. destruct (qn_cnt n <? qn_max n) eqn:E; cbn [fst].
-  - assert (Em : (qn_cnt n + 1) mod 256 = qn_cnt n + 1) by (apply Z.mod_small; lia).
-    split; [|apply rt_enqueue_nodes]. apply rt_enqueue_tinv; [exact T|].
-    unfold rt_nbound. cbn [qn_cnt qn_max qn_timeout]. rewrite Em. lia.
-  - split; [exact T|reflexivity].
+  intros st q' ((W & B & F) & H & SO) W' Hne F'. split; [|split; assumption].
+  split; [exact W'|]. split; [|exact F']. cbn. intros X. apply B. apply Hne. exact X.
 Qed.
 
 (* ------------------------------------------------------------------ the loop bound suffices *)
 Definition rt_cost (n : sq_node) : nat := S (Z.to_nat (qn_max n - qn_cnt n)).
+Definition rt_hb (l : list sq_node) : nat := rt_budget (map (fun n => (0, n)) l).
 
 Lemma rt_budget_cons : forall t n q, rt_budget ((t, n) :: q) = (rt_cost n + rt_budget q)%nat.
 Proof. reflexivity. Qed.
+
+Lemma rt_hb_cons : forall n l, rt_hb (n :: l) = (rt_cost n + rt_hb l)%nat.
+Proof. reflexivity. Qed.
+
+Lemma rt_hb_app : forall a b, rt_hb (a ++ b) = (rt_hb a + rt_hb b)%nat.
+Proof. induction a as [|n a IH]; intros b; [reflexivity|]. cbn [app]. rewrite !rt_hb_cons, IH. lia. Qed.
+
+Lemma rt_hb_perm : forall a b, Permutation a b -> rt_hb a = rt_hb b.
+Proof.
+  intros a b P. induction P.
+  - reflexivity.
+  - rewrite !rt_hb_cons. lia.
+  - rewrite !rt_hb_cons. lia.
+  - congruence.
+Qed.
 
 Lemma rt_budget_bump : forall d q, rt_budget (sq_bump d q) = rt_budget q.
 Proof. intros d [|[t n] r]; reflexivity. Qed.
@@ -128,48 +149,164 @@ Proof.
   - cbn [rs_q rt_set_q]. apply rt_budget_insert.
 Qed.
 
-Lemma rt_due_false_base : forall st, rt_due st = false -> rs_q st <> [] -> rs_base st <= rs_now st ->
-  match rs_q st with [] => True | (t0, _) :: _ => rs_now st < rs_base st + t0 end.
+Lemma rt_budget_all_eq : forall st, rt_budget_all st = (rt_budget (rs_q st) + rt_hb (rt_held (rs_sess st)))%nat.
+Proof. reflexivity. Qed.
+
+(* releasing: queue invariant kept, no marker, the bound does not grow *)
+Lemma rt_release_go_t : forall dq st ns ca,
+  rt_qinv st -> Forall rt_hbound dq -> 0 <= ca <= ns ->
+  match rt_release_go st ns ca dq with
+  | (st2, ca2, dq2, o) =>
+      rt_qinv st2 /\ Forall rt_hbound dq2 /\ 0 <= ca2 <= ns /\ ~ In RoFuel o /\
+      rs_sess st2 = rs_sess st /\ rs_now st2 = rs_now st /\
+      (rt_budget (rs_q st2) + rt_hb dq2 <= rt_budget (rs_q st) + rt_hb dq)%nat
+  end.
 Proof.
-  intros st D Q B. unfold rt_due in D. destruct (rs_q st) as [|[t0 n0] r]; [exact I|]. lia.
+  induction dq as [|n dq IH]; intros st ns ca Q H Hca; cbn [rt_release_go].
+  - split; [exact Q|]. split; [constructor|]. split; [lia|]. split; [intros []|].
+    split; [reflexivity|]. split; [reflexivity|lia].
+  - destruct (ns <=? ca) eqn:E.
+    + split; [exact Q|]. split; [exact H|]. split; [lia|]. split; [intros []|].
+      split; [reflexivity|]. split; [reflexivity|lia].
+    + inversion H as [|? ? (Hc & Hm & Ht) H']; subst.
+      set (c := qn_cnt n + 1). set (st1 := rt_enqueue st (rt_bump_node n c) (qn_timeout n * 2 ^ c)).
+      assert (Q1 : rt_qinv st1).
+      { apply rt_enqueue_qinv; [exact Q|]. unfold rt_nbound, rt_bump_node. cbn [qn_cnt qn_max qn_timeout]. lia. }
+      destruct (rt_enqueue_nodes st (rt_bump_node n c) (qn_timeout n * 2 ^ c)) as (_ & _ & N & S).
+      pose proof (rt_budget_enqueue st (rt_bump_node n c) (qn_timeout n * 2 ^ c)) as Bq.
+      fold st1 in N, S, Bq.
+      specialize (IH st1 ns (ca + 1) Q1 H' ltac:(lia)).
+      destruct (rt_release_go st1 ns (ca + 1) dq) as [[[st2 ca2] dq2] o2].
+      destruct IH as (Q2 & H2 & C2 & NF & S2 & N2 & B2).
+      split; [exact Q2|]. split; [exact H2|]. split; [lia|]. split.
+      * intros [X|X]; [discriminate|exact (NF X)].
+      * split; [congruence|]. split; [congruence|].
+        rewrite rt_hb_cons. rewrite Bq in B2. unfold rt_cost, rt_bump_node in *. cbn [qn_max qn_cnt] in *. lia.
+Qed.
+
+Lemma rt_release_t : forall st s, rt_tinv st ->
+  rt_tinv (fst (rt_release st s)) /\ ~ In RoFuel (snd (rt_release st s)) /\
+  rs_now (fst (rt_release st s)) = rs_now st /\
+  (rt_budget_all (fst (rt_release st s)) <= rt_budget_all st)%nat.
+Proof.
+  intros st s (Q & H & SO). unfold rt_release.
+  destruct (rt_held_get_set s (rs_sess st)) as (rest & P1 & P2).
+  pose proof (rt_sget_ok s _ SO) as [Oa On]. set (si := rt_sget s (rs_sess st)) in *.
+  assert (Hs : Forall rt_hbound (si_hold si) /\ Forall rt_hbound rest).
+  { eapply Permutation_Forall in H; [|exact P1]. apply Forall_app in H. exact H. }
+  destruct Hs as [Hs Hr].
+  pose proof (rt_release_go_t (si_hold si) st (si_nstart si) (si_active si) Q Hs Oa) as G.
+  destruct (rt_release_go st (si_nstart si) (si_active si) (si_hold si)) as [[[st1 ca] dq] o].
+  destruct G as (Q1 & H1 & C1 & NF & S1 & N1 & B1). cbn [fst snd].
+  set (e := rt_mk_sinfo (si_nstart si) ca dq).
+  split; [|split; [exact NF|split; [exact N1|]]].
+  - split; [exact Q1|]. cbn [rt_set_sess rs_sess]. rewrite S1. split.
+    + eapply Permutation_Forall; [apply Permutation_sym; apply (P2 e)|]. apply Forall_app. auto.
+    + apply rt_sset_ok; [|exact SO]. unfold rt_sinfo_ok. cbn. lia.
+  - rewrite !rt_budget_all_eq. cbn [rt_set_sess rs_q rs_sess]. rewrite S1.
+    rewrite (rt_hb_perm _ _ (P2 e)), (rt_hb_perm _ _ P1), !rt_hb_app. cbn [e si_hold]. lia.
+Qed.
+
+Lemma rt_tinv_set_same_hold : forall st s e,
+  si_hold e = si_hold (rt_sget s (rs_sess st)) -> rt_sinfo_ok e -> rt_tinv st ->
+  rt_tinv (rt_set_sess st (rt_sset s e (rs_sess st))) /\
+  rt_budget_all (rt_set_sess st (rt_sset s e (rs_sess st))) = rt_budget_all st.
+Proof.
+  intros st s e He Oe (Q & H & SO). destruct (rt_held_get_set s (rs_sess st)) as (rest & P1 & P2).
+  assert (P : Permutation (rt_held (rt_sset s e (rs_sess st))) (rt_held (rs_sess st))).
+  { eapply Permutation_trans; [apply P2|]. rewrite He. apply Permutation_sym. exact P1. }
+  split.
+  - split; [exact Q|]. cbn [rt_set_sess rs_sess]. split.
+    + eapply Permutation_Forall; [apply Permutation_sym; exact P|exact H].
+    + apply rt_sset_ok; assumption.
+  - rewrite !rt_budget_all_eq. cbn [rt_set_sess rs_q rs_sess]. rewrite (rt_hb_perm _ _ P). reflexivity.
+Qed.
+
+Lemma rt_free_slot_t : forall st s, rt_tinv st ->
+  rt_tinv (fst (rt_free_slot st s)) /\ ~ In RoFuel (snd (rt_free_slot st s)) /\
+  rs_now (fst (rt_free_slot st s)) = rs_now st /\
+  (rt_budget_all (fst (rt_free_slot st s)) <= rt_budget_all st)%nat.
+Proof.
+  intros st s T. unfold rt_free_slot. destruct (0 <? si_active (rt_sget s (rs_sess st))) eqn:E.
+  - set (e := rt_mk_sinfo _ _ _). set (st0 := rt_set_sess st _).
+    destruct (rt_tinv_set_same_hold st s e) as [T0 B0]; [reflexivity| |exact T|].
+    { destruct T as (_ & _ & SO). destruct (rt_sget_ok s _ SO) as [Oa On]. unfold rt_sinfo_ok, e. cbn. lia. }
+    fold st0 in T0, B0. destruct (rt_release_t st0 s T0) as (T1 & NF & N1 & B1).
+    split; [exact T1|]. split; [exact NF|]. split; [rewrite N1; reflexivity|lia].
+  - cbn [fst snd]. split; [exact T|]. split; [intros []|]. split; [reflexivity|lia].
+Qed.
+
+Lemma rt_free_slots_t : forall k st s, rt_tinv st ->
+  rt_tinv (fst (rt_free_slots k st s)) /\ ~ In RoFuel (snd (rt_free_slots k st s)) /\
+  rs_now (fst (rt_free_slots k st s)) = rs_now st.
+Proof.
+  induction k as [|k IH]; intros st s T; cbn [rt_free_slots].
+  - cbn. split; [exact T|]. split; [intros []|reflexivity].
+  - destruct (rt_free_slot_t st s T) as (T1 & NF1 & N1 & _). destruct (rt_free_slot st s) as [st1 o1].
+    cbn [fst snd] in *. destruct (IH st1 s T1) as (T2 & NF2 & N2). destruct (rt_free_slots k st1 s) as [st2 o2].
+    cbn [fst snd] in *. split; [exact T2|]. split; [|congruence].
+    intros I. apply in_app_or in I. tauto.
+Qed.
+
+(* one iteration of the prepare loop on a node that was popped *)
+Lemma rt_retransmit_t : forall st n, rt_tinv st -> rt_nbound n ->
+  rt_tinv (fst (rt_retransmit st n)) /\ ~ In RoFuel (snd (rt_retransmit st n)) /\
+  rs_now (fst (rt_retransmit st n)) = rs_now st /\
+  (S (rt_budget_all (fst (rt_retransmit st n))) <= rt_cost n + rt_budget_all st)%nat.
+Proof.
+  intros st n T (C & M & TO). unfold rt_retransmit. destruct (qn_cnt n <? qn_max n) eqn:E.
+  - assert (Em : (qn_cnt n + 1) mod 256 = qn_cnt n + 1) by (apply Z.mod_small; lia).
+    rewrite Em. set (c := qn_cnt n + 1).
+    set (st1 := rt_enqueue st (rt_bump_node n c) (qn_timeout n * 2 ^ c)).
+    assert (T1 : rt_tinv st1).
+    { apply rt_enqueue_tinv; [exact T|]. unfold rt_nbound, rt_bump_node. cbn [qn_cnt qn_max qn_timeout]. lia. }
+    destruct (rt_enqueue_nodes st (rt_bump_node n c) (qn_timeout n * 2 ^ c)) as (_ & _ & N & S).
+    pose proof (rt_budget_enqueue st (rt_bump_node n c) (qn_timeout n * 2 ^ c)) as Bq.
+    fold st1 in N, S, Bq.
+    destruct T1 as (Q1 & H1 & SO1). pose proof (rt_sget_ok (qn_sess n) _ SO1) as [Oa On].
+    set (si := rt_sget (qn_sess n) (rs_sess st1)) in *.
+    assert (Lt : (si_nstart si <=? (if 0 <? si_active si then si_active si - 1 else si_active si)) = false).
+    { destruct (0 <? si_active si) eqn:E0; lia. }
+    rewrite Lt. cbn [fst snd].
+    set (e := rt_mk_sinfo _ _ _).
+    destruct (rt_tinv_set_same_hold st1 (qn_sess n) e) as [T2 B2]; [reflexivity| |split; [exact Q1|split; assumption]|].
+    { unfold rt_sinfo_ok, e. cbn. destruct (0 <? si_active si) eqn:E0; lia. }
+    split; [exact T2|]. split; [intros [X|[]]; discriminate|]. split; [cbn [rt_set_sess rs_now]; exact N|].
+    rewrite B2, !rt_budget_all_eq, Bq, S. unfold rt_cost, rt_bump_node. cbn [qn_max qn_cnt]. lia.
+  - destruct (rt_free_slot_t st (qn_sess n) T) as (T1 & NF & N1 & B1).
+    destruct (rt_free_slot st (qn_sess n)) as [st1 o1]. cbn [fst snd] in *.
+    split; [exact T1|]. split.
+    + intros I. apply in_app_or in I. destruct I as [I|[I|[]]]; [exact (NF I)|discriminate].
+    + split; [exact N1|]. unfold rt_cost. lia.
 Qed.
 
 Lemma rt_fire_enough : forall fuel st,
-  rt_tinv st -> (rt_budget (rs_q st) <= fuel)%nat ->
+  rt_tinv st -> (rt_budget_all st <= fuel)%nat ->
   let (st', o) := rt_fire fuel st in
   ~ In RoFuel o /\ rt_due st' = false /\ rt_tinv st' /\ rs_now st' = rs_now st.
 Proof.
   induction fuel as [|f IH]; intros st T Bu; cbn [rt_fire].
   - assert (Q : rs_q st = []).
-    { destruct (rs_q st) as [|[t n] q]; [reflexivity|]. rewrite rt_budget_cons in Bu.
+    { destruct (rs_q st) as [|[t n] q] eqn:E; [reflexivity|]. rewrite rt_budget_all_eq, E, rt_budget_cons in Bu.
       unfold rt_cost in Bu. lia. }
     unfold rt_due. rewrite Q. cbn. tauto.
   - destruct (rt_due st) eqn:D; [|cbn; tauto].
     destruct (sq_pop (rs_q st)) as [[[t n] q']|] eqn:P.
-    + destruct T as (W & B & F).
+    + pose proof T as ((W & B & F) & H & SO).
       pose proof (rt_nodes_pop _ _ _ _ P) as EN. rewrite EN in F. inversion F as [|? ? Hn F']; subst.
       assert (T1 : rt_tinv (rt_set_q st q')).
-      { apply rt_set_q_tinv; [split; [exact W|split; [exact B|rewrite EN; exact F]]| | |exact F'].
+      { apply rt_set_q_tinv; [exact T| | |exact F'].
         - eapply sq_pop_wf; eauto.
         - intros _ X. rewrite X in P. discriminate. }
-      assert (Bq : rt_budget (rs_q st) = (rt_cost n + rt_budget q')%nat).
-      { destruct (rs_q st) as [|[t0 n0] rest]; [discriminate|]. cbn in P. inversion P; subst.
-        rewrite rt_budget_cons, rt_budget_bump. reflexivity. }
-      pose proof (rt_retransmit_tinv (rt_set_q st q') n T1 Hn) as [T2 N2].
-      assert (B2 : (rt_budget (rs_q (fst (rt_retransmit (rt_set_q st q') n))) <= f)%nat).
-      { unfold rt_retransmit. destruct Hn as (C & M & TO).
-        destruct (qn_cnt n <? qn_max n) eqn:E; cbn [fst].
-        - rewrite rt_budget_enqueue. cbn [rs_q rt_set_q]. unfold rt_cost in *.
-          cbn [qn_max qn_cnt].
-          assert (Em : (qn_cnt n + 1) mod 256 = qn_cnt n + 1) by (apply Z.mod_small; lia).
-          rewrite Em. lia.
-        - cbn [rs_q rt_set_q]. unfold rt_cost in *. lia. }
-      destruct (rt_retransmit (rt_set_q st q') n) as [st1 o1] eqn:R1. cbn [fst] in *.
-      specialize (IH st1 T2 B2). destruct (rt_fire f st1) as [st2 o2].
+      assert (Bq : rt_budget_all st = (rt_cost n + rt_budget_all (rt_set_q st q'))%nat).
+      { rewrite !rt_budget_all_eq. cbn [rt_set_q rs_q rs_sess].
+        destruct (rs_q st) as [|[t0 n0] rest]; [discriminate|]. cbn in P. inversion P; subst.
+        rewrite rt_budget_cons, rt_budget_bump. lia. }
+      destruct (rt_retransmit_t (rt_set_q st q') n T1 Hn) as (T2 & NF1 & N2 & B2).
+      destruct (rt_retransmit (rt_set_q st q') n) as [st1 o1]. cbn [fst snd] in *.
+      specialize (IH st1 T2 ltac:(lia)). destruct (rt_fire f st1) as [st2 o2].
       destruct IH as (NF & D2 & T3 & N3). split; [|split; [exact D2|split; [exact T3|]]].
-      * intros I. apply in_app_or in I. destruct I as [I|I]; [|exact (NF I)].
-        unfold rt_retransmit in R1. destruct (qn_cnt n <? qn_max n); inversion R1; subst;
-          cbn in I; destruct I as [I|I]; try discriminate; try contradiction.
+      * intros I. apply in_app_or in I. tauto.
       * rewrite N3, N2. reflexivity.
     + apply sq_pop_none in P. unfold rt_due in D. rewrite P in D. discriminate.
 Qed.
@@ -179,88 +316,116 @@ Lemma rt_fire_all_ok : forall st, rt_tinv st ->
   ~ In RoFuel o /\ rt_due st' = false /\ rt_tinv st' /\ rs_now st' = rs_now st.
 Proof. intros st T. unfold rt_fire_all. apply rt_fire_enough; [exact T|lia]. Qed.
 
+(* a node taken out of the queue by (session, mid) *)
+Lemma rt_removed_tinv : forall st s m e q', rt_tinv st -> sq_remove (rs_q st) s m = Some (e, q') ->
+  rt_tinv (rt_set_q st q').
+Proof.
+  intros st s m [t n] q' T Rm. pose proof T as ((W & B & F) & _ & _).
+  apply rt_set_q_tinv; [exact T| | |].
+  - eapply sq_remove_wf'; eauto.
+  - intros _ X. rewrite X in Rm. discriminate.
+  - destruct (rt_nodes_remove _ _ _ _ _ _ Rm) as [P _].
+    eapply Permutation_Forall in F; [|exact P]. inversion F; assumption.
+Qed.
+
+Lemma rt_cancelled_tinv : forall st p, rt_tinv st -> rt_tinv (rt_set_q st (snd (sq_cancel p (rs_q st)))).
+Proof.
+  intros st p T. pose proof T as ((W & B & F) & _ & _).
+  pose proof (rt_nodes_cancel p (rs_q st)) as P. pose proof (sq_cancel_wf p (rs_q st) W) as Wc.
+  destruct (sq_cancel p (rs_q st)) as [rm q'] eqn:Ec. cbn [fst snd] in *.
+  apply rt_set_q_tinv; [exact T|exact Wc| |].
+  - intros X Y. rewrite Y in Ec. cbn in Ec. inversion Ec; subst. contradiction.
+  - eapply Permutation_Forall in F; [|exact P]. apply Forall_app in F. tauto.
+Qed.
+
 (* ------------------------------------------------------------------ every step keeps the invariant *)
 Lemma rt_step_tinv : forall st ev, rt_ev_ok ev -> rt_tinv st ->
   rt_tinv (fst (rt_step st ev)) /\ ~ In RoFuel (snd (rt_step st ev)).
 Proof.
   intros st ev Hev T. destruct ev as [dt|s m b cfg r| |s m|s m|s m tok|s reason|s m|tmo|]; cbn [rt_step].
-  - cbn [fst snd]. split; [|intros []]. destruct T as (W & B & F).
-    split; [exact W|]. split; [|exact F]. cbn. intros X. specialize (B X). cbn in Hev. lia.
-  - unfold rt_send. cbn [fst snd]. split.
-    + apply rt_enqueue_tinv.
-      * destruct T as (W & B & F). split; [exact W|]. split; [exact B|exact F].
-      * unfold rt_nbound. cbn [qn_cnt qn_max qn_timeout]. cbn in Hev.
-        split; [lia|]. split; [lia|]. unfold fp_calc_timeout. apply fp_calc_q_nonneg.
-    + intros [X|[X|[]]]; discriminate.
+  - cbn [fst snd]. split; [|intros []]. destruct T as ((W & B & F) & H & SO).
+    split; [|split; assumption]. split; [exact W|]. split; [|exact F].
+    cbn. intros X. specialize (B X). cbn in Hev. lia.
+  - unfold rt_send. pose proof T as (Q & H & SO).
+    destruct (rt_held_get_set s (rs_sess st)) as (rest & P1 & P2).
+    pose proof (rt_sget_ok s _ SO) as [Oa On]. set (si := rt_sget s (rs_sess st)) in *.
+    set (T0 := fp_calc_timeout _ _ _ _ _).
+    assert (HT : 0 <= T0) by (unfold T0, fp_calc_timeout; apply fp_calc_q_nonneg).
+    destruct (si_nstart si <=? si_active si) eqn:Efull.
+    + destruct (existsb (fun n => qn_mid n =? m) (si_hold si)); cbn [fst snd].
+      * split; [exact T|intros [X|[]]; discriminate].
+      * split; [|intros [X|[]]; discriminate].
+        set (n := sq_mk_node _ _ _ _ _ _ _). set (e := rt_mk_sinfo _ _ _).
+        split; [exact Q|]. cbn [rs_sess]. split.
+        -- eapply Permutation_Forall; [apply Permutation_sym; apply (P2 e)|]. cbn [e si_hold].
+           eapply Permutation_Forall in H; [|exact P1]. apply Forall_app in H. destruct H as [Hs Hr].
+           apply Forall_app. split; [|exact Hr]. apply Forall_app. split; [exact Hs|].
+           constructor; [|constructor]. unfold rt_hbound, n. cbn [qn_cnt qn_max qn_timeout]. cbn in Hev. lia.
+        -- apply rt_sset_ok; [|exact SO]. unfold rt_sinfo_ok, e. cbn. lia.
+    + cbn [fst snd]. split; [|intros [X|[X|[]]]; discriminate].
+      set (n := sq_mk_node _ _ _ _ _ _ _). set (e := rt_mk_sinfo _ _ _).
+      apply rt_enqueue_tinv.
+      * split; [exact Q|]. cbn [rs_sess]. split.
+        -- eapply Permutation_Forall; [apply Permutation_sym; apply (P2 e)|]. cbn [e si_hold].
+           eapply Permutation_Forall in H; [|exact P1]. exact H.
+        -- apply rt_sset_ok; [|exact SO]. unfold rt_sinfo_ok, e. cbn. lia.
+      * unfold rt_nbound, n. cbn [qn_cnt qn_max qn_timeout]. cbn in Hev. lia.
   - unfold rt_tick. pose proof (rt_fire_all_ok st T) as H.
     destruct (rt_fire_all st) as [st1 o]. destruct H as (NF & _ & T1 & _).
     destruct (rt_wait st1) as [w hd]. cbn [fst snd]. split; [exact T1|].
     intros I. apply in_app_or in I. destruct I as [I|[I|[]]]; [exact (NF I)|discriminate].
   - unfold rt_ack. destruct (sq_remove (rs_q st) s m) as [[[t n] q']|] eqn:Rm.
-    + assert (T1 : rt_tinv (rt_set_q st q')).
-      { destruct T as (W & B & F). apply rt_set_q_tinv; [split; [exact W|split; [exact B|exact F]]| | |].
-        - eapply sq_remove_wf'; eauto.
-        - intros _ X. rewrite X in Rm. discriminate.
-        - destruct (rt_nodes_remove _ _ _ _ _ _ Rm) as [P _].
-          eapply Permutation_Forall in F; [|exact P]. inversion F; assumption. }
-      pose proof (rt_fire_all_ok _ T1) as H. destruct (rt_fire_all (rt_set_q st q')) as [st1 o].
-      destruct H as (NF & _ & T2 & _). cbn [fst snd]. split; [exact T2|].
-      intros [I|I]; [discriminate|exact (NF I)].
+    + pose proof (rt_removed_tinv st s m _ q' T Rm) as T1.
+      destruct (rt_free_slot_t (rt_set_q st q') s T1) as (T2 & NF2 & _ & _).
+      destruct (rt_free_slot (rt_set_q st q') s) as [st1 o1]. cbn [fst snd] in *.
+      pose proof (rt_fire_all_ok _ T2) as H. destruct (rt_fire_all st1) as [st2 o2].
+      destruct H as (NF & _ & T3 & _). cbn [fst snd]. split; [exact T3|].
+      intros [I|I]; [discriminate|]. apply in_app_or in I. tauto.
     + pose proof (rt_fire_all_ok _ T) as H. destruct (rt_fire_all st) as [st1 o].
       destruct H as (NF & _ & T2 & _). cbn [fst snd]. tauto.
   - unfold rt_rst. destruct (sq_remove (rs_q st) s m) as [[[t n] q']|] eqn:Rm.
-    + assert (T1 : rt_tinv (rt_set_q st q')).
-      { destruct T as (W & B & F). apply rt_set_q_tinv; [split; [exact W|split; [exact B|exact F]]| | |].
-        - eapply sq_remove_wf'; eauto.
-        - intros _ X. rewrite X in Rm. discriminate.
-        - destruct (rt_nodes_remove _ _ _ _ _ _ Rm) as [P _].
-          eapply Permutation_Forall in F; [|exact P]. inversion F; assumption. }
-      pose proof (rt_fire_all_ok _ T1) as H. destruct (rt_fire_all (rt_set_q st q')) as [st1 o].
-      destruct H as (NF & _ & T2 & _). cbn [fst snd]. split; [exact T2|].
-      intros [I|I]; [discriminate|exact (NF I)].
+    + pose proof (rt_removed_tinv st s m _ q' T Rm) as T1.
+      destruct (rt_free_slot_t (rt_set_q st q') s T1) as (T2 & NF2 & _ & _).
+      destruct (rt_free_slot (rt_set_q st q') s) as [st1 o1]. cbn [fst snd] in *.
+      pose proof (rt_fire_all_ok _ T2) as H. destruct (rt_fire_all st1) as [st2 o2].
+      destruct H as (NF & _ & T3 & _). cbn [fst snd]. split; [exact T3|].
+      intros I. apply in_app_or in I. destruct I as [I|[I|I]]; [exact (NF2 I)|discriminate|exact (NF I)].
     + pose proof (rt_fire_all_ok _ T) as H. destruct (rt_fire_all st) as [st1 o].
       destruct H as (NF & _ & T2 & _). cbn [fst snd]. split; [exact T2|].
       intros [I|I]; [discriminate|exact (NF I)].
-  - unfold rt_non.
-    pose proof (rt_nodes_cancel (rt_tok_match s tok) (rs_q st)) as P.
-    pose proof (sq_cancel_wf (rt_tok_match s tok) (rs_q st)) as Wc.
-    destruct (sq_cancel (rt_tok_match s tok) (rs_q st)) as [rm q'] eqn:Ec. cbn [fst snd] in *.
-    assert (T1 : rt_tinv (rt_set_q st q')).
-    { destruct T as (W & B & F). apply rt_set_q_tinv; [split; [exact W|split; [exact B|exact F]]| | |].
-      - apply Wc. exact W.
-      - intros X Y. rewrite Y in Ec. cbn in Ec. inversion Ec; subst. contradiction.
-      - eapply Permutation_Forall in F; [|exact P]. apply Forall_app in F. tauto. }
-    pose proof (rt_fire_all_ok _ T1) as H. destruct (rt_fire_all (rt_set_q st q')) as [st1 o].
-    destruct H as (NF & _ & T2 & _). cbn [fst snd]. split; [exact T2|].
-    intros I. apply in_app_or in I. destruct I as [I|I]; [|exact (NF I)].
-    apply in_map_iff in I. destruct I as (x & X & _). discriminate.
-  - unfold rt_disconnect.
-    pose proof (rt_nodes_cancel (rt_sess_match s) (rs_q st)) as P.
-    pose proof (sq_cancel_wf (rt_sess_match s) (rs_q st)) as Wc.
-    destruct (sq_cancel (rt_sess_match s) (rs_q st)) as [rm q'] eqn:Ec. cbn [fst snd] in *.
+  - unfold rt_non. pose proof (rt_cancelled_tinv st (rt_tok_match s tok) T) as T1.
+    destruct (sq_cancel (rt_tok_match s tok) (rs_q st)) as [rm q']. cbn [fst snd] in *.
+    destruct (rt_free_slots_t (length rm) (rt_set_q st q') s T1) as (T2 & NF2 & _).
+    destruct (rt_free_slots (length rm) (rt_set_q st q') s) as [st1 o1]. cbn [fst snd] in *.
+    pose proof (rt_fire_all_ok _ T2) as H. destruct (rt_fire_all st1) as [st2 o2].
+    destruct H as (NF & _ & T3 & _). cbn [fst snd]. split; [exact T3|].
+    intros I. apply in_app_or in I. destruct I as [I|I].
+    + apply in_map_iff in I. destruct I as (x & X & _). discriminate.
+    + apply in_app_or in I. tauto.
+  - unfold rt_disconnect. pose proof (rt_cancelled_tinv st (rt_sess_match s) T) as T1.
+    destruct (sq_cancel (rt_sess_match s) (rs_q st)) as [rm q']. cbn [fst snd] in *.
+    destruct T1 as (Q1 & H1 & SO1). cbn [rt_set_q rs_sess] in H1, SO1.
+    destruct (rt_held_get_set s (rs_sess st)) as (rest & P1 & P2).
+    pose proof (rt_sget_ok s _ SO1) as [Oa On]. set (si := rt_sget s (rs_sess st)) in *.
+    set (e := rt_mk_sinfo (si_nstart si) 0 []).
     split.
-    + destruct T as (W & B & F). apply rt_set_q_tinv; [split; [exact W|split; [exact B|exact F]]| | |].
-      * apply Wc. exact W.
-      * intros X Y. rewrite Y in Ec. cbn in Ec. inversion Ec; subst. contradiction.
-      * eapply Permutation_Forall in F; [|exact P]. apply Forall_app in F. tauto.
-    + destruct rm as [|n rm]; [intros [X|[]]; discriminate|].
+    + split; [exact Q1|]. cbn [rt_set_sess rs_sess]. split.
+      * eapply Permutation_Forall; [apply Permutation_sym; apply (P2 e)|]. cbn [e si_hold app].
+        eapply Permutation_Forall in H1; [|exact P1]. apply Forall_app in H1. tauto.
+      * apply rt_sset_ok; [|exact SO1]. unfold rt_sinfo_ok, e. cbn. lia.
+    + destruct (si_hold si ++ rm) as [|n0 g]; [intros [X|[]]; discriminate|].
       intros I. apply in_map_iff in I. destruct I as (x & X & _). discriminate.
   - unfold rt_delete. destruct (sq_remove (rs_q st) s m) as [[[t n] q']|] eqn:Rm; cbn [fst snd].
-    + split; [|intros [X|[]]; discriminate].
-      destruct T as (W & B & F). apply rt_set_q_tinv; [split; [exact W|split; [exact B|exact F]]| | |].
-      * eapply sq_remove_wf'; eauto.
-      * intros _ X. rewrite X in Rm. discriminate.
-      * destruct (rt_nodes_remove _ _ _ _ _ _ Rm) as [P _].
-        eapply Permutation_Forall in F; [|exact P]. inversion F; assumption.
+    + split; [|intros [X|[]]; discriminate]. eapply rt_removed_tinv; eauto.
     + split; [exact T|intros []].
   - unfold rt_io_process.
     pose proof (rt_fire_all_ok st T) as H1. destruct (rt_fire_all st) as [st1 o1].
     destruct H1 as (NF1 & _ & T1 & _). destruct (rt_wait st1) as [w hd].
     set (et := rt_epoll_timeout w tmo).
-    set (st2 := rt_mk_state _ (rs_base st1) (rs_q st1) (rs_uid st1)).
+    set (st2 := rt_set_now st1 _).
     assert (T2 : rt_tinv st2).
-    { destruct T1 as (W & B & F). split; [exact W|]. split; [|exact F].
-      cbn [st2 rs_q rs_base rs_now]. intros X. specialize (B X). destruct (0 <? et) eqn:E; lia. }
+    { destruct T1 as ((W & B & F) & H & SO). split; [|split; assumption]. split; [exact W|]. split; [|exact F].
+      cbn [st2 rt_set_now rs_q rs_base rs_now]. intros X. specialize (B X). destruct (0 <? et) eqn:E; lia. }
     pose proof (rt_fire_all_ok st2 T2) as H3. destruct (rt_fire_all st2) as [st3 o3].
     destruct H3 as (NF3 & _ & T3 & _). cbn [fst snd]. split; [exact T3|].
     intros I. apply in_app_or in I. destruct I as [I|[I|I]]; [exact (NF1 I)|discriminate|].
@@ -304,7 +469,7 @@ Proof.
   destruct (rt_fire_all st) as [st1 o]. destruct H as (NF & D & T1 & N).
   destruct (rt_wait st1) as [w hd] eqn:Wt. exists o, w, hd.
   split; [rewrite N; reflexivity|]. split; [exact NF|]. split; [exact N|].
-  unfold rt_wait_ok. unfold rt_wait in Wt. destruct T1 as (W & B & F).
+  unfold rt_wait_ok. unfold rt_wait in Wt. destruct T1 as ((W & B & F) & _ & _).
   destruct (rs_q st1) as [|[t0 n0] rest] eqn:Q.
   - inversion Wt; subst. cbn. tauto.
   - inversion Wt; subst. cbn [sq_abs].
@@ -322,15 +487,15 @@ Proof.
 Qed.
 
 (* for every reachable state *)
-Theorem rt_wait_sound : forall t0 evs,
-  Forall rt_ev_ok evs ->
-  let st := fst (rt_run (rt_init t0) evs) in
+Theorem rt_wait_sound : forall t0 nst evs,
+  rt_nst_ok nst -> Forall rt_ev_ok evs ->
+  let st := fst (rt_run (rt_init t0 nst) evs) in
   let (st', o) := rt_tick st in
   exists o' w hd, o = o' ++ [RoWait (rs_now st) w hd] /\ ~ In RoFuel o' /\
                   rs_now st' = rs_now st /\ rt_wait_ok st' w hd.
 Proof.
-  intros t0 evs F st. apply rt_tick_wait_sound.
-  apply (rt_run_tinv evs (rt_init t0) F (rt_tinv_init t0)).
+  intros t0 nst evs Hn F st. apply rt_tick_wait_sound.
+  apply (rt_run_tinv evs (rt_init t0 nst) F (rt_tinv_init t0 nst Hn)).
 Qed.
 
 (* ------------------------------------------------------------------ C06_schedule *)
@@ -341,6 +506,11 @@ Section Schedule.
   Hypothesis T_pos : 1 <= T.
   Hypothesis mx_range : 1 <= mx <= 255.
   Hypothesis waits_fit : T * 2 ^ mx < 4294967296.   (* every wait fits the unsigned int result *)
+  (* the session table while the message is in flight: its session holds one slot, nothing waits *)
+  Variables (ns : Z) (tbl : list (Z * rt_sinfo)).
+  Hypothesis ns_pos : 1 <= ns.
+  Hypothesis tbl_s : rt_sget s tbl = rt_mk_sinfo ns 1 [].
+  Hypothesis tbl_fix : rt_sset s (rt_mk_sinfo ns 1 []) tbl = tbl.
 
   Definition rt_sched_node (c : nat) : sq_node := sq_mk_node u s m (Z.of_nat c) T mx b.
   (* time of the transmission number j (0 = the first one) *)
@@ -365,10 +535,10 @@ Section Schedule.
 
   (* the state in which transmission c has just happened at time tn *)
   Definition rt_sched_waiting (k : Z) (c : nat) : rt_state :=
-    rt_mk_state (rt_sched_time c) (rt_sched_time c) [(T * 2 ^ Z.of_nat c, rt_sched_node c)] k.
+    rt_mk_state (rt_sched_time c) (rt_sched_time c) [(T * 2 ^ Z.of_nat c, rt_sched_node c)] k tbl.
   (* ... and the same after sleeping for the reported wait *)
   Definition rt_sched_due (k : Z) (c : nat) : rt_state :=
-    rt_mk_state (rt_sched_time (S c)) (rt_sched_time c) [(T * 2 ^ Z.of_nat c, rt_sched_node c)] k.
+    rt_mk_state (rt_sched_time (S c)) (rt_sched_time c) [(T * 2 ^ Z.of_nat c, rt_sched_node c)] k tbl.
 
   Lemma rt_fire_not_due : forall fuel st, rt_due st = false -> rt_fire fuel st = (st, []).
   Proof. intros [|f] st D; cbn [rt_fire]; rewrite D; reflexivity. Qed.
@@ -419,17 +589,22 @@ Section Schedule.
       RoWait (rt_sched_time (S c)) (T * 2 ^ Z.of_nat (S c)) (rt_sched_time (S (S c)))]).
   Proof.
     intros k c Hc. unfold rt_tick, rt_fire_all.
-    assert (Bu : exists f, rt_budget (rs_q (rt_sched_due k c)) = S f).
-    { unfold rt_sched_due. cbn [rs_q rt_budget fold_right snd]. eexists. reflexivity. }
+    assert (Bu : exists f, rt_budget_all (rt_sched_due k c) = S f).
+    { unfold rt_budget_all, rt_sched_due. cbn [rs_q rt_budget fold_right snd Nat.add]. eexists. reflexivity. }
     destruct Bu as [f Bu]. rewrite Bu. cbn [rt_fire]. rewrite rt_due_due.
     unfold rt_sched_due at 1. cbn [rs_q sq_pop sq_bump].
     unfold rt_retransmit. unfold rt_sched_node.
     cbn [qn_uid qn_sess qn_mid qn_cnt qn_timeout qn_max qn_bytes].
     assert (E : (Z.of_nat c <? mx) = true) by lia. rewrite E.
     assert (Em : (Z.of_nat c + 1) mod 256 = Z.of_nat (S c)) by (rewrite Z.mod_small; lia).
-    rewrite Em. unfold rt_enqueue, rt_set_q, rt_sched_due. cbn [rs_q rs_now rs_base rs_uid sq_insert].
+    rewrite Em. unfold rt_enqueue, rt_set_q, rt_set_sess, rt_bump_node, rt_sched_due.
+    cbn [rs_q rs_now rs_base rs_uid rs_sess sq_insert qn_uid qn_sess qn_mid qn_cnt qn_timeout qn_max qn_bytes].
+    rewrite tbl_s. cbn [si_active si_nstart si_hold].
+    change (0 <? 1) with true. cbv iota. replace (1 - 1) with 0 by lia.
+    assert (En : (ns <=? 0) = false) by lia. rewrite En. replace (0 + 1) with 1 by lia. rewrite tbl_fix.
+    cbn [rs_q rs_now rs_base rs_uid rs_sess].
     change (rt_mk_state (rt_sched_time (S c)) (rt_sched_time (S c))
-              [(T * 2 ^ Z.of_nat (S c), sq_mk_node u s m (Z.of_nat (S c)) T mx b)] k)
+              [(T * 2 ^ Z.of_nat (S c), sq_mk_node u s m (Z.of_nat (S c)) T mx b)] k tbl)
       with (rt_sched_waiting k (S c)).
     rewrite rt_fire_not_due by (apply rt_waiting_not_due; lia).
     unfold rt_wait, rt_sched_waiting. cbn [rs_q rs_now rs_base app].
@@ -441,19 +616,22 @@ Section Schedule.
   (* ... and at the deadline of transmission mx: give up, one NACK, nothing pending *)
   Lemma rt_tick_due_giveup : forall k c, Z.of_nat c = mx ->
     rt_tick (rt_sched_due k c) =
-    (rt_mk_state (rt_sched_time (S c)) (rt_sched_time c) [] k,
+    (rt_mk_state (rt_sched_time (S c)) (rt_sched_time c) [] k (rt_sset s (rt_mk_sinfo ns 0 []) tbl),
      [RoNack (rt_sched_time (S c)) u s rt_NACK_TOO_MANY_RETRIES m mx mx;
       RoWait (rt_sched_time (S c)) 0 (-1)]).
   Proof.
     intros k c Hc. unfold rt_tick, rt_fire_all.
-    assert (Bu : exists f, rt_budget (rs_q (rt_sched_due k c)) = S f).
-    { unfold rt_sched_due. cbn [rs_q rt_budget fold_right snd]. eexists. reflexivity. }
+    assert (Bu : exists f, rt_budget_all (rt_sched_due k c) = S f).
+    { unfold rt_budget_all, rt_sched_due. cbn [rs_q rt_budget fold_right snd Nat.add]. eexists. reflexivity. }
     destruct Bu as [f Bu]. rewrite Bu. cbn [rt_fire]. rewrite rt_due_due.
     unfold rt_sched_due at 1. cbn [rs_q sq_pop sq_bump].
     unfold rt_retransmit. unfold rt_sched_node.
     cbn [qn_uid qn_sess qn_mid qn_cnt qn_timeout qn_max qn_bytes].
     assert (E : (Z.of_nat c <? mx) = false) by lia. rewrite E.
-    unfold rt_set_q, rt_sched_due. cbn [rs_q rs_now rs_base rs_uid].
+    unfold rt_free_slot, rt_release, rt_set_q, rt_set_sess, rt_sched_due. cbn [rs_q rs_now rs_base rs_uid rs_sess].
+    rewrite tbl_s. cbn [si_active si_nstart si_hold]. change (0 <? 1) with true. cbv iota.
+    cbn [rs_q rs_now rs_base rs_uid rs_sess]. rewrite rt_sget_sset. cbn [si_active si_nstart si_hold rt_release_go].
+    cbn [rs_q rs_now rs_base rs_uid rs_sess]. replace (1 - 1) with 0 by lia. rewrite rt_sset_sset.
     rewrite rt_fire_not_due by reflexivity.
     unfold rt_wait. cbn [rs_q rs_now app]. rewrite Hc. reflexivity.
   Qed.
@@ -471,7 +649,8 @@ Section Schedule.
   Lemma rt_punctual_from_due : forall left c k fuel,
     Z.of_nat c + Z.of_nat left = mx -> (left < fuel)%nat ->
     rt_punctual fuel (rt_sched_due k c) =
-    (rt_mk_state (rt_sched_time (S (c + left))) (rt_sched_time (c + left)) [] k,
+    (rt_mk_state (rt_sched_time (S (c + left))) (rt_sched_time (c + left)) [] k
+                 (rt_sset s (rt_mk_sinfo ns 0 []) tbl),
      rt_sched_from left c).
   Proof.
     induction left as [|l IH]; intros c k fuel Hc Hf; destruct fuel as [|f]; try lia; cbn [rt_punctual].
@@ -479,10 +658,9 @@ Section Schedule.
       rewrite Nat.add_0_r. reflexivity.
     - rewrite rt_tick_due_retransmit by lia. rewrite rt_wait_waiting by lia.
       assert (Ne : (T * 2 ^ Z.of_nat (S c) =? 0) = false) by (pose proof (rt_wait_fits (S c) ltac:(lia)); lia).
-      rewrite Ne. cbn [rt_sched_waiting rs_now rs_base rs_q rs_uid].
+      rewrite Ne. cbn [rt_sched_waiting rt_set_now rs_now rs_base rs_q rs_uid rs_sess].
       rewrite <- (rt_sched_time_S (S c)).
-      change (rt_mk_state (rt_sched_time (S (S c))) (rt_sched_time (S c))
-                [(T * 2 ^ Z.of_nat (S c), rt_sched_node (S c))] k) with (rt_sched_due k (S c)).
+      change (rt_set_now (rt_sched_waiting k (S c)) (rt_sched_time (S (S c)))) with (rt_sched_due k (S c)).
       rewrite (IH (S c) k f) by lia.
       replace (S c + l)%nat with (c + S l)%nat by lia. reflexivity.
   Qed.
@@ -490,16 +668,16 @@ Section Schedule.
   (* from the state right after coap_send at time t0 *)
   Theorem rt_punctual_schedule : forall k fuel, (Z.to_nat mx + 1 < fuel)%nat ->
     rt_punctual fuel (rt_sched_waiting k 0) =
-    (rt_mk_state (rt_sched_time (S (Z.to_nat mx))) (rt_sched_time (Z.to_nat mx)) [] k,
+    (rt_mk_state (rt_sched_time (S (Z.to_nat mx))) (rt_sched_time (Z.to_nat mx)) [] k
+                 (rt_sset s (rt_mk_sinfo ns 0 []) tbl),
      RoWait t0 T (t0 + T) :: rt_sched_from (Z.to_nat mx) 0).
   Proof.
     intros k [|f] Hf; [lia|]. cbn [rt_punctual]. rewrite rt_tick_waiting by lia.
     rewrite rt_wait_waiting by lia.
     assert (Ne : (T * 2 ^ Z.of_nat 0 =? 0) = false) by (pose proof (rt_wait_fits 0%nat ltac:(lia)); lia).
-    rewrite Ne. cbn [rt_sched_waiting rs_now rs_base rs_q rs_uid].
+    rewrite Ne. cbn [rt_sched_waiting rt_set_now rs_now rs_base rs_q rs_uid rs_sess].
     rewrite <- (rt_sched_time_S 0).
-    change (rt_mk_state (rt_sched_time 1) (rt_sched_time 0) [(T * 2 ^ Z.of_nat 0, rt_sched_node 0)] k)
-      with (rt_sched_due k 0).
+    change (rt_set_now (rt_sched_waiting k 0) (rt_sched_time 1)) with (rt_sched_due k 0).
     rewrite (rt_punctual_from_due (Z.to_nat mx) 0 k f) by lia.
     cbn [Nat.add app]. f_equal. f_equal.
     unfold rt_sched_time. change (Z.of_nat 0) with 0. change (Z.of_nat 1) with 1.
@@ -527,11 +705,13 @@ End Schedule.
    rt_send), a punctual driver sees exactly max_retransmit + 1 transmissions of the same bytes at
    t0 + T (2^j - 1), j = 0 .. max_retransmit, then exactly one NACK TOO_MANY_RETRIES at
    t0 + T (2^(max_retransmit+1) - 1), the queue is empty, and the last reported wait is 0. *)
-Theorem rt_schedule : forall t0 base0 k s m b cfg r fuel,
+Theorem rt_schedule : forall t0 base0 k s m b cfg r fuel ns tbl0,
   let T := fp_calc_timeout (rc_at_ip cfg) (rc_at_fp cfg) (rc_arf_ip cfg) (rc_arf_fp cfg) r in
   let mx := rc_max cfg in
   1 <= T -> 1 <= mx <= 255 -> T * 2 ^ mx < 4294967296 -> (Z.to_nat mx + 1 < fuel)%nat ->
-  let (st1, o1) := rt_send (rt_mk_state t0 base0 [] k) s m b cfg r in
+  (* the session is idle: no Confirmable in flight, none waiting *)
+  1 <= ns -> rt_sget s tbl0 = rt_mk_sinfo ns 0 [] ->
+  let (st1, o1) := rt_send (rt_mk_state t0 base0 [] k tbl0) s m b cfg r in
   let (st2, o2) := rt_punctual fuel st1 in
   filter rt_is_tx_nack (o1 ++ o2) =
     map (fun j => RoTx (rt_sched_time t0 T j) k s b (Z.of_nat j) T) (seq 0 (S (Z.to_nat mx))) ++
@@ -539,14 +719,19 @@ Theorem rt_schedule : forall t0 base0 k s m b cfg r fuel,
   rs_q st2 = [] /\ rs_now st2 = rt_sched_time t0 T (S (Z.to_nat mx)) /\
   (exists o', o2 = o' ++ [RoWait (rs_now st2) 0 (-1)]).
 Proof.
-  intros t0 base0 k s m b cfg r fuel T mx HT Hmx Hfit Hfuel.
-  unfold rt_send. cbn [rs_uid rs_now rs_base rs_q]. fold T. fold mx.
-  unfold rt_enqueue. cbn [rs_q rs_now rs_uid sq_insert].
-  assert (E0 : rt_mk_state t0 t0 [(T, sq_mk_node k s m 0 T mx b)] (k + 1)
-             = rt_sched_waiting t0 k s m T mx b (k + 1) 0).
+  intros t0 base0 k s m b cfg r fuel ns tbl0 T mx HT Hmx Hfit Hfuel Hns Htbl.
+  unfold rt_send. cbn [rs_uid rs_now rs_base rs_q rs_sess]. fold T. fold mx.
+  rewrite Htbl. cbn [si_nstart si_active si_hold].
+  assert (En : (ns <=? 0) = false) by lia. rewrite En.
+  set (tbl := rt_sset s (rt_mk_sinfo ns (0 + 1) []) tbl0).
+  unfold rt_enqueue. cbn [rs_q rs_now rs_uid rs_sess sq_insert].
+  assert (Ts : rt_sget s tbl = rt_mk_sinfo ns 1 []) by (unfold tbl; rewrite rt_sget_sset; reflexivity).
+  assert (Tf : rt_sset s (rt_mk_sinfo ns 1 []) tbl = tbl) by (unfold tbl; rewrite rt_sset_sset; reflexivity).
+  assert (E0 : rt_mk_state t0 t0 [(T, sq_mk_node k s m 0 T mx b)] (k + 1) tbl
+             = rt_sched_waiting t0 k s m T mx b tbl (k + 1) 0).
   { unfold rt_sched_waiting, rt_sched_time, rt_sched_node. change (Z.of_nat 0) with 0.
     rewrite Z.pow_0_r. replace (t0 + T * (1 - 1)) with t0 by lia. rewrite Z.mul_1_r. reflexivity. }
-  rewrite E0. rewrite (rt_punctual_schedule t0 k s m T mx b HT Hmx Hfit (k + 1) fuel Hfuel).
+  rewrite E0. rewrite (rt_punctual_schedule t0 k s m T mx b HT Hmx Hfit ns tbl Hns Ts Tf (k + 1) fuel Hfuel).
   split; [|split; [reflexivity|split; [reflexivity|]]].
   - cbn [app filter rt_is_tx_nack]. rewrite rt_sched_from_filter.
     assert (Z0 : rt_sched_time t0 T 0 = t0).
@@ -567,7 +752,7 @@ Qed.
 Lemma rt_wait_after_fire : forall st1 w hd,
   rt_tinv st1 -> rt_due st1 = false -> rt_wait st1 = (w, hd) -> rt_wait_ok st1 w hd.
 Proof.
-  intros st1 w hd (W & B & F) D Wt. unfold rt_wait_ok. unfold rt_wait in Wt.
+  intros st1 w hd ((W & B & F) & _ & _) D Wt. unfold rt_wait_ok. unfold rt_wait in Wt.
   destruct (rs_q st1) as [|[t0 n0] rest] eqn:Q.
   - inversion Wt; subst. cbn. tauto.
   - inversion Wt; subst. cbn [sq_abs].
@@ -626,16 +811,16 @@ Proof.
     unfold fp_u32. apply Z.mod_pos_bound. lia. }
   destruct (rt_epoll_timeout_spec w tmo Hw Ht) as (Rg & Inf & Le & _ & _).
   set (et := rt_epoll_timeout w tmo) in *.
-  set (st2 := rt_mk_state _ (rs_base st1) (rs_q st1) (rs_uid st1)).
+  set (st2 := rt_set_now st1 _).
   assert (T2 : rt_tinv st2).
-  { destruct T1 as (W & B & F). split; [exact W|]. split; [|exact F].
-    cbn [st2 rs_q rs_base rs_now]. intros X. specialize (B X). destruct (0 <? et) eqn:E; lia. }
+  { destruct T1 as ((W & B & F) & H & SO). split; [|split; assumption]. split; [exact W|]. split; [|exact F].
+    cbn [st2 rt_set_now rs_q rs_base rs_now]. intros X. specialize (B X). destruct (0 <? et) eqn:E; lia. }
   pose proof (rt_fire_all_ok st2 T2) as H3. destruct (rt_fire_all st2) as [st3 o3].
   destruct H3 as (NF3 & D3 & T3 & N3).
   exists st1, o1, w, hd, o3. split; [first [reflexivity|exact F1]|]. split; [first [reflexivity|exact Wt]|]. split; [exact WO|].
   cbv zeta. rewrite N1. split; [reflexivity|]. split.
   - intros I. apply in_app_or in I. destruct I as [I|[I|I]]; [exact (NF1 I)|discriminate|].
     apply in_app_or in I. destruct I as [I|[I|[]]]; [exact (NF3 I)|discriminate].
-  - split; [exact D3|]. split; [exact T3|]. split; [rewrite N3; cbn [st2 rs_now]; rewrite N1; reflexivity|].
+  - split; [exact D3|]. split; [exact T3|]. split; [rewrite N3; cbn [st2 rt_set_now rs_now]; rewrite N1; reflexivity|].
     split; [exact Inf|exact Le].
 Qed.
